@@ -90,6 +90,9 @@ def run_check(prop, tier, seed, args):
         batches = [(b, r) for b, r in batches if b == args.batch]
     batches = [(b, max(1, int(r * args.runs_scale))) for b, r in batches]
     profiles = {b: plans.profile_for(prop, b, open_f) for b, _ in batches}
+    for pr in profiles.values():
+        # minimisation budget per violating run
+        pr["min_execs"], pr["min_wall"] = (150, 25.0) if tier == "quick" else (400, 90.0)
     wall_cap = args.wall if args.wall else (600 if tier == "quick" else 3 * 3600)
     deadline = t0 + wall_cap
     agg = {
